@@ -67,6 +67,11 @@ class BoolList(list):
     """A boolean tensor (result of a comparison / all / any / ~): used as an index it is a mask, not a list of positions."""
 
 
+def _vreal(z):
+    """complex tensor -> real tensor with a trailing axis (re, im)"""
+    return [_vreal(e) for e in z] if isinstance(z, list) else [complex(z).real, complex(z).imag]
+
+
 def _mask(z):
     """z as a boolean tensor at every level (rows of a mask are masks too)"""
     return BoolList([_mask(e) for e in z]) if isinstance(z, list) else z
@@ -1473,6 +1478,15 @@ class Folder:
                     return float(node.args[0].value)
                 except ValueError as exc:
                     raise Unfoldable(str(exc))
+            if short == "view_as_real" and nm.startswith("torch.") and len(node.args) == 1 and not node.keywords:
+                v_ = self.fold(node.args[0])
+
+                def _anyc(z):
+                    return any(_anyc(e) for e in z) if isinstance(z, list) else isinstance(z, complex)
+
+                if isinstance(v_, PySeq) or not _anyc(v_):
+                    raise Unfoldable("view_as_real of a non-complex value")
+                return _vreal(v_)
             if short in ("real", "imag", "conj") and nm.startswith("torch.") and len(node.args) == 1 and not node.keywords:
                 v_ = self.fold(node.args[0])
                 if isinstance(v_, PySeq):
